@@ -752,7 +752,10 @@ fn apply_fold_specific_filter<'query, AdapterT: Adapter<'query>>(
         let value = match tagged_value {
             TaggedValue::Some(value) => value,
             TaggedValue::NonexistentOptional => {
-                unreachable!("while applying fold-specific filter, the @fold turned out to not exist: {ctx:?}")
+                // The @fold is inside an @optional scope that did not exist, so there is no count
+                // to filter on. Such a context has no active vertex, and filters always pass for
+                // contexts within a nonexistent optional scope: the value pushed here is not used.
+                FieldValue::Null
             }
         };
         ctx.values.push(value);
